@@ -351,7 +351,8 @@ namespace bluetoe
                             used_buffer_  = 0;
                             in_flash_mode = true;
 
-                            if ( !MemRegions::acceptable( start_address, start_address ) )
+                            // the first octet to be flashed has to be within an acceptable region
+                            if ( start_address + 1 < start_address || !MemRegions::acceptable( start_address, start_address + 1 ) )
                                 return request_error( bluetoe::error_codes::invalid_offset );
 
                             for ( auto& buffer : buffers_ )
@@ -596,7 +597,8 @@ namespace bluetoe
                 {
                     const auto next = ( next_buffer_ + 1 ) % number_of_concurrent_flashs;
 
-                    if ( buffers_[ next ].empty() )
+                    // data that continues behind the end of an acceptable region is not buffered
+                    if ( buffers_[ next ].empty() && start_address + 1 > start_address && MemRegions::acceptable( start_address, start_address + 1 ) )
                     {
                         ++consecutive_;
                         buffers_[ next ].set_start_address( start_address, *this, buffers_[ next_buffer_ ].crc(), consecutive_ );
